@@ -30,6 +30,44 @@ func lawsFail(cmp func(i, j int) int) bool {
 	return false
 }
 
+// stripZeros removes surrounding whitespace (which go-univers ignores) and the
+// leading zeros of every digit run. ComparableVersion gives a run of 19 or
+// more zeros a different item type than "0" (BigIntegerItem(0) > IntItem(0)),
+// a quirk go-univers does not copy; the reference is therefore also consulted
+// on the zero-stripped spelling, where that quirk cannot mask a cycle.
+func stripZeros(s string) string {
+	s = strings.TrimSpace(s)
+	var sb strings.Builder
+	for i := 0; i < len(s); {
+		if s[i] < '0' || s[i] > '9' {
+			sb.WriteByte(s[i])
+			i++
+			continue
+		}
+		j := i
+		for j < len(s) && s[j] >= '0' && s[j] <= '9' {
+			j++
+		}
+		run := strings.TrimLeft(s[i:j], "0")
+		if run == "" {
+			run = "0"
+		}
+		sb.WriteString(run)
+		i = j
+	}
+	return sb.String()
+}
+
+func trimmed(f func(a, b string) int) func(a, b string) int {
+	return func(a, b string) int { return f(strings.TrimSpace(a), strings.TrimSpace(b)) }
+}
+
+func zeroStripped(f func(a, b string) int) func(a, b string) int {
+	return func(a, b string) int { return f(stripZeros(a), stripZeros(b)) }
+}
+
+var mavenRefs = []func(a, b string) int{trimmed(model.MavenCompare), trimmed(model.MavenCompareAliasAlways), zeroStripped(model.MavenCompare), zeroStripped(model.MavenCompareAliasAlways)}
+
 // fastCycle builds the per-pool version of a reference-cycle class: the
 // reference comparison matrices are computed once per pool.
 func fastCycle(ecoName string, cmps ...func(a, b string) int) func(eco string, pool []string) func(i, j, k int) bool {
@@ -79,17 +117,18 @@ func init() {
 			for j := i + 1; j < len(vs); j++ {
 				for k := j + 1; k < len(vs); k++ {
 					t := [3]string{vs[i], vs[j], vs[k]}
-					if lawsFail(func(x, y int) int { return model.MavenCompare(t[x], t[y]) }) ||
-						lawsFail(func(x, y int) int { return model.MavenCompareAliasAlways(t[x], t[y]) }) {
-						return true
+					for _, ref := range mavenRefs {
+						if lawsFail(func(x, y int) int { return ref(t[x], t[y]) }) {
+							return true
+						}
 					}
 				}
 			}
 		}
 		return false
 	})
-	poolFast["maven.reference_cycle"] = fastCycle("maven", model.MavenCompare, model.MavenCompareAliasAlways)
-	poolFast["alpm.reference_cycle"] = fastCycle("alpm", model.AlpmCompare)
+	poolFast["maven.reference_cycle"] = fastCycle("maven", mavenRefs...)
+	poolFast["alpm.reference_cycle"] = fastCycle("alpm", trimmed(model.AlpmCompare))
 
 	// alpm: pacman's vercmp (which go-univers follows) is itself cyclic on
 	// degenerate inputs with trailing or repeated separators, e.g.
@@ -108,7 +147,7 @@ func init() {
 			for j := i + 1; j < len(vs); j++ {
 				for k := j + 1; k < len(vs); k++ {
 					t := [3]string{vs[i], vs[j], vs[k]}
-					if lawsFail(func(x, y int) int { return model.AlpmCompare(t[x], t[y]) }) {
+					if lawsFail(func(x, y int) int { return model.AlpmCompare(strings.TrimSpace(t[x]), strings.TrimSpace(t[y])) }) {
 						return true
 					}
 				}
